@@ -56,6 +56,13 @@ pub fn binary<F: RawFloat, const FORMAT: u128>(num: &Number, lossy: bool) -> Ext
     // disambiguate the float. If it's even, and exactly halfway, this
     // step fails.
     let power2 = shared::calculate_power2::<F, FORMAT>(num.exponent, ctlz);
+    if power2 >= F::INFINITE_POWER {
+        // The biased exponent only increases when rounding: must be infinity.
+        return ExtendedFloat80 {
+            mant: 0,
+            exp: F::INFINITE_POWER,
+        };
+    }
     if -power2 + 1 > 64 {
         // Have more than 64 bits below the minimum exponent, must be 0.
         // With exactly 64 bits the value is in the range `[0.5, 1)` of
